@@ -197,11 +197,20 @@ pub proof fn lemma_class_piece_prefix(p2: Seq<u8>, cs: Seq<ClassInProgress>, i: 
     lemma_prefix_trans(p2 + classes_bytes(cs, i + 1), p2 + classes_bytes(cs, nn), canon);
 }
 
-// cumulative prefix number k of the canonical layout of (cs, strs)
+// cumulative prefix number k of the canonical layout of (cs, strs); opaque: the regions of `write` only ever see
+// tail_prefix(k) as an atom and learn about it through the step lemmas below (keeps every region query small and stable)
+#[verifier::opaque]
 pub open spec fn tail_prefix(k: int, cs: Seq<ClassInProgress>, strs: Seq<u8>) -> Seq<u8> {
     let nn = cs.len() as int; let hb = hdr_bytes(header_of(cs, strs)); let cb = classes_bytes(cs, nn);
     let mb = members_bytes(all_members(cs, nn)); let pb = members_bytes(all_by_params(cs, nn));
     layout_prefix(k, hb, zeros(pad_len(hb.len() as int)), cb, zeros(pad_len(cb.len() as int)), mb, zeros(pad_len(mb.len() as int)), pb, zeros(pad_len(pb.len() as int)), strs)
+}
+
+// chunk number k (1..9) of the canonical layout: header, pad, classes, pad, members, pad, by-params members, pad, strings
+pub open spec fn tail_chunk(k: int, cs: Seq<ClassInProgress>, strs: Seq<u8>) -> Seq<u8> {
+    let nn = cs.len() as int; let hb = hdr_bytes(header_of(cs, strs)); let cb = classes_bytes(cs, nn);
+    let mb = members_bytes(all_members(cs, nn)); let pb = members_bytes(all_by_params(cs, nn));
+    layout_chunk(k, hb, zeros(pad_len(hb.len() as int)), cb, zeros(pad_len(cb.len() as int)), mb, zeros(pad_len(mb.len() as int)), pb, zeros(pad_len(pb.len() as int)), strs)
 }
 
 pub proof fn lemma_pad_arith(a: int, b: int, off: int)
@@ -217,6 +226,7 @@ pub proof fn lemma_tail_aligned(cs: Seq<ClassInProgress>, strs: Seq<u8>)
     let nn = cs.len() as int; let hb = hdr_bytes(header_of(cs, strs)); let cb = classes_bytes(cs, nn);
     let mb = members_bytes(all_members(cs, nn)); let pb = members_bytes(all_by_params(cs, nn));
     let z1 = zeros(pad_len(hb.len() as int)); let z2 = zeros(pad_len(cb.len() as int)); let z3 = zeros(pad_len(mb.len() as int)); let z4 = zeros(pad_len(pb.len() as int));
+    reveal(tail_prefix);
     reveal_with_fuel(layout_prefix, 10);
     let l0 = layout_prefix(0, hb, z1, cb, z2, mb, z3, pb, z4, strs).len() as int;
     let l2 = layout_prefix(2, hb, z1, cb, z2, mb, z3, pb, z4, strs).len() as int;
@@ -282,3 +292,80 @@ pub proof fn lemma_canonical_len(cs: Seq<ClassInProgress>, strs: Seq<u8>)
     lemma_pad_arith(e2p, mb.len() as int, (e2p + mb.len()) % 8);
     lemma_pad_len_shift(e3p, pb.len() as int);
 }
+
+pub proof fn lemma_tail_prefix_9(cs: Seq<ClassInProgress>, strs: Seq<u8>)
+    ensures tail_prefix(9, cs, strs) == canonical(cs, strs),
+{
+    reveal(tail_prefix);
+    lemma_canonical_flat(cs, strs);
+    let nn = cs.len() as int; let hb = hdr_bytes(header_of(cs, strs)); let cb = classes_bytes(cs, nn);
+    let mb = members_bytes(all_members(cs, nn)); let pb = members_bytes(all_by_params(cs, nn));
+    lemma_layout_prefixes(canonical(cs, strs), hb, zeros(pad_len(hb.len() as int)), cb, zeros(pad_len(cb.len() as int)), mb, zeros(pad_len(mb.len() as int)), pb, zeros(pad_len(pb.len() as int)), strs);
+}
+
+// ---- step lemmas: everything a region of `write` needs to know about one writer statement ----
+pub proof fn lemma_tail_start(sunk0: Seq<u8>, cs: Seq<ClassInProgress>, strs: Seq<u8>)
+    ensures sunk0 + tail_prefix(0, cs, strs) == sunk0, tail_prefix(0, cs, strs).len() == 0,
+{
+    reveal(tail_prefix);
+    assert(sunk0 + Seq::<u8>::empty() =~= sunk0);
+}
+pub proof fn lemma_tail_step(k: int, cs: Seq<ClassInProgress>, strs: Seq<u8>)
+    requires 0 <= k < 9,
+    ensures
+        tail_prefix(k + 1, cs, strs) == tail_prefix(k, cs, strs) + tail_chunk(k + 1, cs, strs),
+        is_prefix_of(tail_prefix(k + 1, cs, strs), canonical(cs, strs)),
+        is_prefix_of(tail_prefix(k, cs, strs), canonical(cs, strs)),
+{
+    reveal(tail_prefix);
+    lemma_canonical_flat(cs, strs);
+    let nn = cs.len() as int; let hb = hdr_bytes(header_of(cs, strs)); let cb = classes_bytes(cs, nn);
+    let mb = members_bytes(all_members(cs, nn)); let pb = members_bytes(all_by_params(cs, nn));
+    lemma_layout_prefixes(canonical(cs, strs), hb, zeros(pad_len(hb.len() as int)), cb, zeros(pad_len(cb.len() as int)), mb, zeros(pad_len(mb.len() as int)), pb, zeros(pad_len(pb.len() as int)), strs);
+}
+// a section write at an even stage k: all of chunk k+1 goes out, or a prefix of it
+pub proof fn lemma_tail_write(sunk0: Seq<u8>, k: int, cs: Seq<ClassInProgress>, strs: Seq<u8>)
+    requires 0 <= k < 9,
+    ensures
+        forall|new: Seq<u8>| #[trigger] delivered_prefix(sunk0 + tail_prefix(k, cs, strs), new, tail_chunk(k + 1, cs, strs)) ==> delivered_prefix(sunk0, new, canonical(cs, strs)),
+        (sunk0 + tail_prefix(k, cs, strs)) + tail_chunk(k + 1, cs, strs) == sunk0 + tail_prefix(k + 1, cs, strs),
+        (tail_prefix(k, cs, strs).len() % 8 + tail_chunk(k + 1, cs, strs).len()) % 8 == tail_prefix(k + 1, cs, strs).len() % 8,
+        is_prefix_of(tail_prefix(k, cs, strs) + tail_chunk(k + 1, cs, strs), canonical(cs, strs)),
+{
+    lemma_tail_step(k, cs, strs);
+    lemma_track_write(sunk0, tail_prefix(k, cs, strs), tail_chunk(k + 1, cs, strs), canonical(cs, strs));
+}
+// the padding after a section (odd stage k, chunk k+1 is the padding of chunk k): the zero bytes the writer computes
+// from its running offset are exactly the next chunk, and afterwards the position is 8-aligned
+pub proof fn lemma_tail_pad(sunk0: Seq<u8>, k: int, cs: Seq<ClassInProgress>, strs: Seq<u8>, off: int)
+    requires 0 <= k < 9, k % 2 == 1, off == tail_prefix(k, cs, strs).len() % 8,
+    ensures
+        zeros(pad_len(off)) == tail_chunk(k + 1, cs, strs),
+        forall|new: Seq<u8>, d: int| 0 <= d <= pad_len(off) && #[trigger] ext_by_zeros(sunk0 + tail_prefix(k, cs, strs), new, d) ==> delivered_prefix(sunk0, new, canonical(cs, strs)),
+        forall|new: Seq<u8>| #[trigger] ext_by_zeros(sunk0 + tail_prefix(k, cs, strs), new, pad_len(off)) ==> new == sunk0 + tail_prefix(k + 1, cs, strs),
+        tail_prefix(k + 1, cs, strs).len() % 8 == 0,
+{
+    lemma_tail_step(k - 1, cs, strs);
+    lemma_tail_step(k, cs, strs);
+    lemma_tail_aligned(cs, strs);
+    let a = tail_prefix(k - 1, cs, strs).len() as int;
+    let b = tail_chunk(k, cs, strs).len() as int;
+    assert(tail_prefix(k, cs, strs).len() == a + b);
+    lemma_pad_arith(a, b, off);
+    assert(tail_chunk(k + 1, cs, strs) == zeros(pad_len(b)));
+    lemma_track_pad(sunk0, tail_prefix(k, cs, strs), pad_len(off), canonical(cs, strs));
+}
+// a pad_to_8 at an already aligned position (even stage) writes nothing
+pub proof fn lemma_tail_pad_noop(sunk0: Seq<u8>, k: int, cs: Seq<ClassInProgress>, strs: Seq<u8>, off: int)
+    requires 0 <= k <= 9, k % 2 == 0, off == tail_prefix(k, cs, strs).len() % 8,
+    ensures
+        pad_len(off) == 0,
+        forall|new: Seq<u8>| #[trigger] ext_by_zeros(sunk0 + tail_prefix(k, cs, strs), new, 0) ==> new == sunk0 + tail_prefix(k, cs, strs)
+            && delivered_prefix(sunk0, new, canonical(cs, strs)),
+{
+    lemma_tail_aligned(cs, strs);
+    if k < 9 { lemma_tail_step(k, cs, strs); } else { lemma_tail_step(k - 1, cs, strs); }
+    lemma_add_empty(tail_prefix(k, cs, strs));
+    lemma_track_pad(sunk0, tail_prefix(k, cs, strs), 0, canonical(cs, strs));
+}
+
